@@ -272,7 +272,7 @@ class Program:
             tree, inl = inline_new_helpers(tree, short(name), ambiguous, pkg_funcs, pkg_meths, is_pkg, imported, pkg_bindings)
             if inl:
                 self.inlined[name] = inl
-            tree = canonicalise(tree)
+            tree = canonicalise(tree, short(name))
             m = Module(name, path, os.path.relpath(path, self.repo), src, tree, is_pkg)
             self.modules[name] = m
         self.digest = h.hexdigest()
